@@ -1,8 +1,8 @@
 """C16 — stopping early or failing mid-stream yields a prefix of the full results."""
 import re
 from .. import cfg as C
-from ..flow import Sccp, seed_after_call, I, V, ExprBuilder, walk, is_call, mentions_call, show, \
-    TRY_BRANCH, FROM_RESIDUAL
+from ..flow import Sccp, seed_after_call, I, V, ExprBuilder, walk, is_call, mentions_call, mentions_field, show, \
+    TRY_BRANCH, FROM_RESIDUAL, cond_switches, value_set
 from ..graph import CallGraph, classify_result, field_rw, field_rw_deep
 from ..facts import op_place, place_key
 
@@ -386,6 +386,54 @@ def limit_rule(ctx, r):
             r.ok("%s|begin" % name, "begin() reads max_matches and has an Ok(false) return", fn=b)
         else:
             r.bad("%s|begin" % name, "begin() does not refuse the search under a zero match limit", fn=b)
+    # the limit predicates themselves
+    from .. import wire as Wr
+    for name, adt in PRINTERS.items():
+        cfgadt = {"standard": "grep_printer::standard::Config", "json": "grep_printer::json::Config",
+                  "summary": "grep_printer::summary::Config"}[name]
+        for fnname in (("should_quit", "match_more_than_limit") if name != "summary" else ("should_quit",)):
+            g = facts.fn(adt + "::" + fnname)
+            ebg = ExprBuilder(g)
+            key = "%s|%s|def" % (name, fnname)
+            arms, info = Wr.variant_arms(g, ebg, lambda e: mentions_field(e, cfgadt, "max_matches"))
+            if not info:
+                r.bad(key, "%s::%s no longer matches on config.max_matches" % (adt.split("::")[-1], fnname), fn=g, construct=fnname)
+                continue
+            tn = arms.get("None", info[0][3])
+            sn = Sccp(g).run([(tn, {})])
+            vn = {x for v in sn.ret_values.values() for x in value_set(v)}
+            if vn != {I(0)}:
+                r.bad(key, "without a match limit %s answers %s" % (fnname, vn), fn=g, construct=fnname)
+                continue
+
+            def is_cmp(e, ops):
+                return e.k == "bin" and e[1] in ops and mentions_field(e, adt, "match_count") and \
+                    any(y.k == "dc" and y[2] == "Some" for y in walk(e))
+            if fnname == "match_more_than_limit":
+                ret = ebg.local(0)
+                fin = [x for x in (ret[2] if ret.k == "phi" else [ret]) if x.k != "const"]
+                okd = fin and all(is_cmp(x, ("Gt",)) and mentions_field(x[2], adt, "match_count") for x in fin)
+                spec = "Some(limit) ∧ match_count > limit"
+            elif name == "summary":
+                ret = ebg.local(0)
+                fin = [x for x in (ret[2] if ret.k == "phi" else [ret]) if x.k != "const"]
+                okd = fin and all(is_cmp(x, ("Ge",)) and mentions_field(x[2], adt, "match_count") for x in fin)
+                spec = "Some(limit) ∧ match_count >= limit"
+            else:
+                lt = cond_switches(g, lambda e: is_cmp(e, ("Lt",)) and mentions_field(e[2], adt, "match_count"), ebg)
+                ret = ebg.local(0)
+                fin = [x for x in (ret[2] if ret.k == "phi" else [ret]) if x.k != "const"]
+                okd = bool(lt) and fin and all(x.k == "bin" and x[1] == "Eq" and mentions_field(x, adt, "after_context_remaining") and
+                                             any(y.k == "const" and y[1] == 0 for y in (x[2], x[3])) for x in fin)
+                if okd:
+                    s1 = Sccp(g).run([(lt[0][1][1], {})])
+                    okd = {x for v in s1.ret_values.values() for x in value_set(v)} == {I(0)}
+                spec = "Some(limit) ∧ ¬(match_count < limit) ∧ after_context_remaining == 0"
+            if okd:
+                r.ok(key, "%s ≡ %s" % (fnname, spec), fn=g)
+            else:
+                r.bad(key, "%s::%s is no longer `%s` (returns `%s`)" % (adt.split("::")[-1], fnname, spec, show(ebg.local(0))[:70]), fn=g,
+                      construct=fnname)
     # after_context_remaining written in matched (both arms) and decremented in context under After
     for name in ("standard", "json"):
         adt = PRINTERS[name]
